@@ -888,6 +888,9 @@ fn history(ctx: &mut Ctx, rng: &Rng, nops: usize, max_heap_len: usize) {
     let mut hh = Hasher64::new();
     let r = util::catch(|| {
         let mut x = VecType::new();
+        // a second vector: destination / source of clone_from, partner of the comparison operators
+        let mut y2 = VecType::new();
+        let mut my: Vec<u64> = Vec::new();
         let mut fail: Option<(String, String, String)> = None;
         let mut counts: Vec<(String, u64)> = Vec::new();
         let mut bump = |k: String| {
@@ -905,9 +908,9 @@ fn history(ctx: &mut Ctx, rng: &Rng, nops: usize, max_heap_len: usize) {
             }
             let len = m.v.len();
             let which = match phase {
-                0 => *rng.pick(&[0u64, 0, 0, 2, 2, 3, 5, 6, 7, 1]),          // grow
-                1 => *rng.pick(&[0u64, 1, 2, 3, 3, 4, 5, 6, 7, 8, 9, 10, 11]), // hover
-                _ => *rng.pick(&[1u64, 1, 1, 3, 4, 8, 9, 0, 10, 11]),       // drain
+                0 => *rng.pick(&[0u64, 0, 0, 2, 2, 3, 5, 6, 7, 1, 12]),          // grow
+                1 => *rng.pick(&[0u64, 1, 2, 3, 3, 4, 5, 6, 7, 8, 9, 10, 11, 12]), // hover
+                _ => *rng.pick(&[1u64, 1, 1, 3, 4, 8, 9, 0, 10, 11, 12]),       // drain
             };
             let before = m.v.clone();
             let lenclass = if len == 0 { "len0" } else if len + 1 == CAP { "len61" } else if len == CAP { "len62" } else if len > CAP { "len>62" } else { "mid" };
@@ -1148,6 +1151,64 @@ fn history(ctx: &mut Ctx, rng: &Rng, nops: usize, max_heap_len: usize) {
                             fail = Some(("hi64".into(), format!("{:x?}", got), format!("{:x?}", want)));
                         }
                         trace.push("hi64".into());
+                    }
+                }
+                12 => {
+                    // the rest of the trait surface, against a second vector that has its own history (longer, shorter or equal):
+                    // Clone::clone_from in both directions, swap, and every comparison operator
+                    match rng.below(5) {
+                        0 => {
+                            y2.clone_from(&x);
+                            my = m.v.clone();
+                            trace.push("y.clone_from(x)".into());
+                            bump(format!("clone_from.into_{}", if my.len() < y2.len() { "?" } else { "second" }));
+                        }
+                        1 => {
+                            let longer = my.len() > m.v.len();
+                            x.clone_from(&y2);
+                            m.v = my.clone();
+                            trace.push("x.clone_from(y)".into());
+                            bump(format!("clone_from.into_first.{}", if longer { "grows" } else { "shrinks_or_same" }));
+                        }
+                        2 => {
+                            std::mem::swap(&mut x, &mut y2);
+                            std::mem::swap(&mut m.v, &mut my);
+                            trace.push("swap(x,y)".into());
+                            bump("swap".into());
+                        }
+                        3 => {
+                            // grow / shrink the second vector a little so that the two lengths differ in both directions
+                            if rng.chance(1, 2) && my.len() < CAP {
+                                let v = small_word(rng);
+                                if y2.try_push(v as Limb).is_some() {
+                                    my.push(v);
+                                }
+                            } else if y2.pop().is_some() {
+                                my.pop();
+                            }
+                            trace.push("y.push/pop".into());
+                            bump("second.push_pop".into());
+                        }
+                        _ => {
+                            let yv: Vec<u64> = y2.iter().map(|&v| v as u64).collect();
+                            if yv != my {
+                                fail = Some(("second-vector-contents".into(), hexl(&yv), hexl(&my)));
+                            }
+                            let seq_eq = m.v == my;
+                            if (x == y2) != seq_eq || (x != y2) == seq_eq {
+                                fail = Some(("eq/ne".into(), format!("== {} != {}", x == y2, x != y2), format!("sequence equality {}", seq_eq)));
+                            }
+                            if m.v.last() != Some(&0) && my.last() != Some(&0) {
+                                let want = BigU::from_limbs64(&m.v).cmp(&BigU::from_limbs64(&my));
+                                let got = (x.cmp(&y2), x.partial_cmp(&y2), x < y2, x <= y2, x > y2, x >= y2);
+                                let exp = (want, Some(want), want == Ordering::Less, want != Ordering::Greater, want == Ordering::Greater, want != Ordering::Less);
+                                if got != exp {
+                                    fail = Some(("comparison-operators".into(), format!("{:?}", got), format!("{:?}", exp)));
+                                }
+                                bump(format!("operators.{:?}", want));
+                            }
+                            trace.push("compare(x,y)".into());
+                        }
                     }
                 }
                 _ => {
